@@ -190,6 +190,18 @@ PROPS['C17'] = {
 }
 
 
+PROPS['C18'] = {
+    'level': 'model_checking',
+    'pkgs': ALLV,
+    'text': 'documented error values: Get/Set on an unknown abbreviation return *ErrInvalidMetric with that abbreviation and Set with an illegal value ErrInvalidMetricValue (strings of any length, all reachable objects); ParseVector: wrong/missing header -> ErrInvalidCVSSHeader (v3, v4), and for strings with exactly one defect according to a reference single-defect classifier (written from the property text; strings with two or more defects are left unconstrained) the documented error with the right Abv',
+    'bounds': 'Get/Set: none. ParseVector: ' + PARSER_BOUNDS,
+    'solvers': {'quick': ['z3'], 'thorough': ['z3', 'z3new']},
+    'timeout': {'quick': 900, 'thorough': 3600},
+    'per_harness': dict(PARSER_PARAMS, **{'C18_Parse$': {'quick': {'skip': True}, 'thorough': {}}}),
+    'technique': PROPS['C01']['technique'],
+}
+
+
 def harnesses(pid, tier, hf):
     cfg = PROPS[pid]
     out = []
@@ -277,6 +289,8 @@ def finish(pid, tier, seed, results, exe, tmp, t0, log, write_evidence=True):
     solver_time = {}
     queries = 0
     vac = []
+    unreach = []
+    reached = set()
     for r in results:
         hname = r['harness']
         if r['status'] != 'ok':
@@ -298,7 +312,9 @@ def finish(pid, tier, seed, results, exe, tmp, t0, log, write_evidence=True):
             if st == 'unsat':
                 n_unsat += 1
                 if rec['kind'] == 'assert' and rec.get('reachable') not in (None, 'sat'):
-                    inconclusive.append({'harness': hname, 'reason': 'assertion "%s" not shown reachable (%s)' % (rec['label'], rec.get('reachable'))})
+                    unreach.append((r.get('pkg'), rec['label'], hname, rec.get('reachable')))
+                elif rec['kind'] == 'assert':
+                    reached.add((r.get('pkg'), rec['label']))
                 if len(samples) < 6 and rec['kind'] == 'assert':
                     samples.append({'harness': hname, 'obligation': rec['label'], 'kind': rec['kind'], 'verdict': 'unsat', 'by_solver': rec.get('by_solver'), 'reachability_witness': rec.get('reachable')})
             elif st == 'sat':
@@ -328,6 +344,12 @@ def finish(pid, tier, seed, results, exe, tmp, t0, log, write_evidence=True):
             else:
                 n_unknown += 1
                 inconclusive.append({'harness': hname, 'reason': 'obligation "%s" (%s at %s): solver verdict %s %s' % (rec['label'], rec['kind'], rec['pos'], st, rec.get('by_solver'))})
+    vacuous = []
+    for pkg, label, hname, st in unreach:
+        if (pkg, label) in reached:
+            vacuous.append({'harness': hname, 'assertion': label, 'note': 'not reachable in this input space; reached in another harness of the same package'})
+        else:
+            inconclusive.append({'harness': hname, 'reason': 'assertion "%s" not shown reachable (%s) in any harness of %s' % (label, st, pkg)})
     for kf, path in known_hits:
         log('KNOWN-FINDING: property=%s %s' % (pid, kf.get('what', '')))
     for hname, rec, path, out in violations:
@@ -367,6 +389,7 @@ def finish(pid, tier, seed, results, exe, tmp, t0, log, write_evidence=True):
                 'unknown': n_unknown,
                 'inconclusive': inconclusive,
                 'unreproduced_models': unreproduced,
+                'assertions_vacuous_in_one_space': vacuous,
                 'known_findings_hit': [k.get('what') for k, _ in known_hits],
                 'exhaustive': False,
             },
